@@ -293,6 +293,18 @@ def domain_c10(tier: str, rng: random.Random) -> Iterable[dict[str, Any]]:
             stream = [pool[i] for i in seq]
             for b in batches:
                 yield {"runs": [enc_spans(stream)], "batch": b}
+    # realistic batch sizes (the default is 1000): ~1100 spans in 10-span traces, one duplicate id whose second occurrence
+    # (different content) sits early / deep inside the first batch / in the second batch; also the duplicate arriving in a second run
+    big = [s for k in range(110) for s in chain(f"T{k}", 10, "W1", bool(k % 2))]
+    for pos in (15, 620, 990, 1050):
+        for first in (3, 501, 777):
+            if first >= pos:
+                continue
+            dup = big[first]._replace(event_type="dup", parent=big[first - 1].event_id if big[first].parent else big[first + 1].event_id)
+            stream = big[:pos] + [dup] + big[pos:]
+            for b in (1000, 700):
+                yield {"runs": [enc_spans(stream)], "batch": b}
+    yield {"runs": [enc_spans(big[:600]), enc_spans(big[300:])], "batch": 1000}
     # duplicates across runs: every split point of every stream of length <= 3 (quick) / 4 (thorough)
     m = 3 if tier == "quick" else 4
     for n in range(2, m + 1):
@@ -536,8 +548,15 @@ def domain_c12(tier: str, rng: random.Random) -> Iterable[dict[str, Any]]:
             for b in batches:
                 yield {"spans": enc_spans(order), "batch": b, "filter": None}
             names = sorted({s.job_name for s in spans})
-            yield {"spans": enc_spans(order), "batch": 2, "filter": {names[0]: ["A", "B", "C"]}}
-            yield {"spans": enc_spans(order), "batch": 3, "filter": {n: ["A"] if i == 0 else ["B", "C"] for i, n in enumerate(names)}}
+            by_name = {n: sorted({s.job_id for s in spans if s.job_name == n}) for n in names}
+            filters = [dict(by_name),                                            # everything, keyed correctly (total = number of traces)
+                       {names[0]: by_name[names[0]][:1]},                        # one trace of the first name
+                       {n: ids[:1] for n, ids in by_name.items()},               # one trace per name
+                       {names[0]: by_name[names[0]], **{n: [] for n in names[1:]}},  # an empty id set for the other names
+                       {names[0]: ["A", "B", "C", "nope"]}]                      # ids that are not stored / belong to another name
+            for b in batches[:-1] if order is spans else (2, 3):
+                for f in filters:
+                    yield {"spans": enc_spans(order), "batch": b, "filter": f}
 
 
 # ============================================================================= C09: unique graph selection
